@@ -251,7 +251,7 @@ def kani_cmd(h, tgt, extra=()):
             + KANI_BASE + list(extra) + h.args + getattr(h, "resolved_extra", []))
 
 
-CHECK_RE = re.compile(r"^Check (\d+): (\S+)\n\t - Status: (\w+)\n\t - Description: \"(.*)\"\n\t - Location: (.*)$", re.M)
+CHECK_RE = re.compile(r"^Check (\d+): (.+)\n\t - Status: (\w+)\n\t - Description: \"(.*)\"\n\t - Location: (.*)$", re.M)
 
 
 def parse_log(text):
